@@ -2,6 +2,7 @@ SPECIFICATION Spec
 CONSTANTS
   Reqs <- Reqs2
   Dups = {3}
+  FailIdx = {}
   RegisterFirst = FALSE
 INVARIANTS NoSpurious
 CHECK_DEADLOCK FALSE
